@@ -1,6 +1,6 @@
 (* C02 - replies are interpreted exactly as the protocol defines, sentinels included. *)
 From UV Require Import Base.Bytes Model.WireTypes Model.Codec Model.Ops Spec.WireSpec Spec.CodecSpec Spec.Protocol Spec.ReplySpec
-  Proofs.WireProofs Proofs.ReplyProofs.
+  Proofs.WireProofs Proofs.ReplyProofs Proofs.ReplyE2E.
 Open Scope N_scope.
 
 (* generated-data obligation: for all 31 reply-bearing operations the reply struct declared in messages/*.go is the flat
@@ -29,6 +29,26 @@ Theorem C02_gate : forall cfg o s vs, fst (sendto cfg o s) = Ok vs ->
              unmarshal (resp_layout o) r = Ok vs).
 Proof. exact sendto_gate. Qed.
 Print Assumptions C02_gate.
+
+(* END TO END, for every operation and all 2^(8*56) payloads behind a correct 8-byte header: what the API model computes from
+   the decoded reply is admitted by the flat protocol specification of Spec/ReplySpec.v - each result field is the
+   protocol decoding of its bytes at its protocol offset, the sentinels and echo checks are honoured, a field outside its
+   domain makes the call fail or comes back as its 'no value', and decoding never panics *)
+Theorem C02_reply_interpreted : forall cfg o r, reply_header_ok o r = true ->
+  match unmarshal (resp_layout o) r with
+  | Ok vs => admits_result cfg o r (result_of cfg o vs) = true
+  | Err => admits_result cfg o r RErr = true
+  | Panic => False
+  end.
+Proof. exact reply_interpreted. Qed.
+Print Assumptions C02_reply_interpreted.
+
+(* the same through the model of the whole call (argument check, routing, driver, gate, decoding, result mapping) *)
+Theorem C02_api_result_admitted : forall cfg o s r m, o <> GetDevices -> accepted o = true -> op_id o <> 0 -> request_bytes o = Ok m ->
+  drive (route cfg (op_id o)) (op_id o) s = DBytes r -> reply_header_ok o r = true ->
+  admits_result cfg o r (fst (api cfg o s)) = true.
+Proof. exact api_reply_admitted. Qed.
+Print Assumptions C02_api_result_admitted.
 
 (* non-vacuity / sentinels on concrete replies (evaluated end to end through the model of the API) *)
 Definition reply_card (n : N) : list N :=
